@@ -182,8 +182,6 @@ def scenario_case(ch, segidx, glue, tls, cbs, raising, reconnect=None):
             kind = "wrong-order-or-missing"
         raise Violation(dict(sig, kind="callback-trace", how=kind, cb=(w or g)[1]),
                         "%s: event %d is %r, reference says %r" % (label, i, g, w), detail={"got": repr(got)[:1500], "want": repr(exp)[:1500]})
-    if run.sched.leaked:
-        raise RuntimeError("leaked OS threads")
     return len(got), run.sched.steps
 
 
